@@ -105,7 +105,10 @@ SHAPES = {
     'tuple_mutables_ref': ([1, 2], {'k': 'v'}, (G,)),
 }
 REF_SCOPES = [None, 's', 's/t']
-AMBIENT = [[], ['a'], ['a', 'b']]
+AMBIENT = [[], ['a'], ['a', 'b'],
+           # ambient scopes that END with (or contain) the scope a reference is written with: still not that scope
+           ['x', 's'], ['x', 's', 't'], ['s', 't', 's']]
+N_AMBIENT = 3      # the ones used in the sequence product
 OVERRIDES = ['none', 'pos', 'kw']
 MUTATIONS = ['none', 'mutate']
 
@@ -515,6 +518,45 @@ def run_dyn_rereg(evaluate, ambient, res):
   res.outcome('dyn_rereg')
 
 
+def run_partial_consumer(bound_param, res):
+  """A consumer that is a functools.partial (its first parameter pre-filled): the caller's positional argument is `p`;
+  a reference bound to `p` is then not called, one bound to `q` is."""
+  import functools  # pylint: disable=import-outside-toplevel
+  desc = ['partial_consumer', bound_param]
+  harness.hard_reset()
+  del CALLS[:]
+  res.case(tuple(desc), True)
+
+  def base(fixed, p='dp', q='dq'):
+    return (fixed, p, q)
+  fn = gin.external_configurable(functools.partial(base, 'FX'), name='partial_consumer', module='c04')
+  try:
+    gin.parse_config("c04.g.tag = 'T'\nc04.partial_consumer.%s = @c04.g()" % bound_param)
+  except Exception as e:  # pylint: disable=broad-except
+    res.violation('call_raised', '%r: binding a free parameter of the partial raised %r' % (desc, e), desc)
+    return
+  sentinel = ['caller']
+  outs = []
+  for call, want_calls, want in ((lambda: fn(sentinel), 0 if bound_param == 'p' else 1, None),
+                                 (lambda: fn(), 1, None), (lambda: fn(q=sentinel), 0 if bound_param == 'q' else 1, None)):
+    before = len(CALLS)
+    try:
+      got = call()
+    except Exception as e:  # pylint: disable=broad-except
+      res.violation('call_raised', '%r: %r' % (desc, e), desc)
+      return
+    outs.append((len(CALLS) - before, want_calls, got))
+  if any(n != w for n, w, _ in outs):
+    res.violation('evaluated_despite_caller_positional' if outs[0][0] > outs[0][1] else 'eval_count',
+                  '%r: calls fn(x), fn(), fn(q=x) evaluated the reference bound to %s (%s) times (wanted, result): %r' %
+                  (desc, bound_param, 'actual', outs), desc)
+  elif outs[0][2][1] is not sentinel or outs[0][2][0] != 'FX':
+    res.violation('caller_value_lost', '%r: fn(x) received %r' % (desc, outs[0][2]), desc)
+  else:
+    res.w('partial_consumer')
+  res.outcome('partial_consumer')
+
+
 def run_override_variants(cname, res):
   """Caller overrides on consumers with other signature shapes (signature-level REQUIRED, keyword-only), with caller
   values of unusual equality."""
@@ -553,6 +595,8 @@ def gen(tier):
   yield 'OVERRIDE', 'strict', None
   yield 'OVERRIDE', 'kwonly', None
   yield 'OVERRIDE', 'plain', None
+  yield 'PARTIAL', 'p', None
+  yield 'PARTIAL', 'q', None
   for ev in (True, False):
     for amb in (None, 'red'):
       yield 'DYNREREG', ev, amb
@@ -563,14 +607,19 @@ def gen(tier):
     for pair in itertools.permutations(REBIND_SCOPES, 2):
       for how in REBIND_HOW:
         yield 'REBIND', (sname, pair), how
-  call_menu2 = list(itertools.product(OVERRIDES, range(len(AMBIENT)), MUTATIONS))
+  call_menu2 = list(itertools.product(OVERRIDES, range(N_AMBIENT), MUTATIONS))
   for sname in SHAPES:
     for rscope in REF_SCOPES[:2]:
       for k in (1, 2):
         for seq in itertools.product(call_menu2, repeat=k):
           yield 'LOCKED', (sname, rscope), seq
   n = 3
-  call_menu = list(itertools.product(OVERRIDES, range(len(AMBIENT)), MUTATIONS))
+  call_menu = list(itertools.product(OVERRIDES, range(N_AMBIENT), MUTATIONS))
+  for sname in SHAPES:
+    for rscope in REF_SCOPES[1:]:
+      for ai in range(N_AMBIENT, len(AMBIENT)):
+        yield sname, rscope, (('none', ai, 'none'),)
+        yield sname, rscope, (('none', ai, 'mutate'), ('none', 0, 'none'))
   for sname in SHAPES:
     for rscope in REF_SCOPES:
       for k in range(1, n + 1):
@@ -600,6 +649,9 @@ def run_shard(i, tier):
     if sname == 'SAMENAME':
       run_same_name(rscope, res)
       continue
+    if sname == 'PARTIAL':
+      run_partial_consumer(rscope, res)
+      continue
     if sname == 'DYNREREG':
       run_dyn_rereg(rscope, seq, res)
       continue
@@ -626,6 +678,10 @@ def replay(desc):
     return res
   if desc[0] == 'same_name':
     run_same_name(desc[1], res)
+    harness.hard_reset()
+    return res
+  if desc[0] == 'partial_consumer':
+    run_partial_consumer(desc[1], res)
     harness.hard_reset()
     return res
   if desc[0] == 'dyn_rereg':
